@@ -126,6 +126,20 @@ def run_history(case, flagged, keep_world=False):
     return outs, flags, between, snap, (w if keep_world else None), final_flag
 
 
+def prefix_in_this_process(case, ops):
+    """Used by the fresh-interpreter helper: build the world and run a history prefix with caching on; -> pickle."""
+    from edgegraph.output import nrpickler
+    from edgegraph.structure import Vertex
+
+    Vertex.NEIGHBOR_CACHING = True
+    try:
+        w = World(case["nv"], 0, case.get("vcls"))
+        run_ops(w, ops, flagged=True)
+        return nrpickler.dumps({"vs": w.vs, "ls": w.ls, "unis": []})
+    finally:
+        Vertex.NEIGHBOR_CACHING = False
+
+
 def continue_in_this_process(vs, ls, ops):
     """Used by the fresh-interpreter helper: continue a history on an un-pickled pool, caching on."""
     from edgegraph.structure import Vertex
@@ -230,6 +244,54 @@ def extra_phase(tier, seed, deadline):
     nt = set()
     evaluations = 0
     errors = []
+
+    def judge(case, exp, r):
+        nonlocal evaluations
+        evaluations += 1
+        wrap = {"_noreplay": True, "fresh": True, "case": case}
+        if r["error"]:
+            failures.setdefault("fresh-interpreter-raised:" + r["error"].split(":")[0], (wrap, r["error"]))
+            return
+        got = r["outs"]
+        diff = None if len(got) == len(exp) else f"{len(got)} query points in the fresh interpreter, {len(exp)} expected"
+        for q, (e_, g_) in enumerate(zip(exp, got)):
+            if diff:
+                break
+            d = battery.first_difference(e_, g_)
+            if d:
+                diff = f"suffix query point {q}: {d}"
+        if diff:
+            failures.setdefault("fresh-interpreter-answer-differs", (wrap, diff))
+        elif len(exp) >= 2 and exp[0] != exp[-1]:
+            nt.add(driver.case_hash({"fresh": case}))
+
+    # ---- protocol 1: BOTH halves in their own fresh interpreters (one process per half, per case), so that any
+    # per-process state (counters, module-level memos) starts from scratch on both sides
+    from concurrent.futures import ThreadPoolExecutor
+
+    m = 24 if tier == "quick" else 400
+
+    def both_fresh(k):
+        case = kept[k]
+        ops = case["ops"]
+        cut = (len(ops) * (1 + case["nv"] % 3)) // 4
+        prefix = [o for o in ops[:cut] if o[0] != "flag"]
+        a = fresh.run_jobs([dict(blob=None, flag=True, want=["c05prefix"], case=case, ops=prefix)])[0]
+        if a["error"]:
+            return k, dict(error=None, outs=None, skip=True)
+        return k, fresh.run_jobs([dict(blob=a["blob"], flag=True, loader="pickle", want=["c05suffix"], ops=jobs[k]["ops"])])[0]
+
+    try:
+        with ThreadPoolExecutor(16) as ex:
+            for k, r in ex.map(both_fresh, range(min(m, len(kept)))):
+                if r.get("skip"):
+                    continue
+                judge(kept[k], expect[k], r)
+    except Exception as e:  # noqa
+        errors.append(f"fresh interpreter (both halves) failed: {e}")
+    both = evaluations
+
+    # ---- protocol 2: prefix here, suffix in one fresh interpreter per batch
     for lo in range(0, len(jobs), 200):
         if time.time() > deadline + 120:
             break
@@ -239,27 +301,9 @@ def extra_phase(tier, seed, deadline):
             errors.append(f"fresh interpreter batch failed: {e}")
             break
         for k, r in enumerate(res):
-            case = kept[lo + k]
-            evaluations += 1
-            if r["error"]:
-                kind = "fresh-interpreter-raised:" + r["error"].split(":")[0]
-                failures.setdefault(kind, ({"_noreplay": True, "fresh": True, "case": case}, r["error"]))
-                continue
-            got = r["outs"]
-            exp = expect[lo + k]
-            diff = None if len(got) == len(exp) else f"{len(got)} query points in the fresh interpreter, {len(exp)} expected"
-            for q, (e_, g_) in enumerate(zip(exp, got)):
-                if diff:
-                    break
-                d = battery.first_difference(e_, g_)
-                if d:
-                    diff = f"suffix query point {q}: {d}"
-            if diff:
-                failures.setdefault("fresh-interpreter-answer-differs", ({"_noreplay": True, "fresh": True, "case": case}, diff))
-            elif len(exp) >= 2 and exp[0] != exp[-1]:
-                nt.add(driver.case_hash({"fresh": case}))
+            judge(kept[lo + k], expect[lo + k], r)
     return dict(
         evaluations=evaluations, skipped_budget=0, nt=nt, nt_enum=0, classes=collections.Counter({"fresh-interpreter-world": evaluations}),
         excluded=0, samples=[], failures=failures, harness_errors=errors, by_phase=collections.Counter({"fresh-interpreter": evaluations}),
-        info={"fresh_interpreter_worlds": evaluations, "note": "each history is split: the prefix runs here with caching on (queries warm the caches), the world is pickled, a new process loads it with caching on and continues with the suffix (mutations and queries); every battery of the suffix is compared with the uncached run's"},
+        info={"fresh_interpreter_worlds": evaluations, "both_halves_in_fresh_interpreters": both, "note": "each history is split: the prefix runs here with caching on (queries warm the caches), the world is pickled, a new process loads it with caching on and continues with the suffix (mutations and queries); every battery of the suffix is compared with the uncached run's"},
     )
